@@ -37,7 +37,7 @@ def analyse(ctx, replace=None, only=None):
     who(R, P, ts)
     run_rules(R, ts, P)
     schedule_rules(R, ts)
-    cancel_rules(R, ts)
+    cancel_rules(R, ts, P)
     has_tasks_rules(R, ts, P=P)
     comparator(R, ts)
     from rules import C06
@@ -486,7 +486,39 @@ def schedule_rules(R, ts):
                             "the insertion position of the fallback is also set from %s: part of the sorted list is skipped without looking at it, the new task lands behind later ones and runs out of time order" % bad_defs)
 
 
-def cancel_rules(R, ts):
+def unlinked_reads_as_unlinked(R, P):
+    """CANCEL/unlink: `task->node.next != NULL` is how cancel (and the thread scheduler's cancellation guard) tell that a
+    task sits in a list: aws_linked_list_remove must leave the removed node with NULL links on every path (it resets the
+    node, or stores NULL to both links)"""
+    g = P.fn("aws_linked_list_remove") if P is not None else None
+    if g is None:
+        return
+    R.fn(g)
+    pn = g.params[0]["n"]
+    resets = [e for e in g.calls("aws_linked_list_node_reset") if argstr(g, e.node, 0, addr=False) == pn]
+    nulls = {}
+    for e in g.field_accesses(rec="aws_linked_list_node", modes=("w",)):
+        if g.show(e.node["a"][0]) == pn:
+            a_ = _assignment_of(g, e)
+            if a_ is not None and g.is_const(RU.uncast(g, a_["a"][1])) == 0:
+                nulls[e.node["f"]] = e
+    rs = P.fn("aws_linked_list_node_reset")
+    reset_ok = rs is not None and (bool(rs.calls({"memset", "__builtin_memset"})) or len({e.node["f"] for e in rs.field_accesses(rec="aws_linked_list_node", modes=("w",))}) >= 2)
+
+    def tr(e, s_):
+        if any(e is r_ for r_ in resets) and reset_ok:
+            return frozenset({"next", "prev"})
+        for fld, ev in nulls.items():
+            if e is ev:
+                return s_ | {fld}
+        return s_
+    ts_ = Typestate(g, frozenset(), tr)
+    R.check(bool(ts_.exit_states) and all(s_ >= {"next", "prev"} for s_ in ts_.exit_states), "CANCEL", "unlinked-node-reads-as-unlinked", "include/aws/common/linked_list.inl in aws_linked_list_remove()",
+            "a removed node has NULL links on every path", "aws_linked_list_remove leaves the removed node's links dangling: `node.next != NULL` no longer tells a linked task from one that already ran - a cancel that arrives late unlinks whatever those stale links point at and delivers the task a second time")
+
+
+def cancel_rules(R, ts, P=None):
+    unlinked_reads_as_unlinked(R, P)
     f = ts["aws_task_scheduler_cancel_task"]
     dom = dominators(f)
     rm = f.calls("aws_linked_list_remove")
